@@ -653,3 +653,81 @@ func c15R5(c *Ctx, r *Report) {
 		}
 	}
 }
+
+func init() { props["C15"].Quick = append(props["C15"].Quick, c15R6) }
+
+// C15.R6: an import alias means what the *importing* module says. Call-target resolution in both back ends
+// may consult generator-level tables only with a key that involves the importing module.
+func c15R6(c *Ctx, r *Report) {
+	const rule = "C15.R6"
+	r.Describe(rule, "resolveCallTarget (wasm, QBE): the alias is looked up in the importing module's ImportAliasMap, and no generator-level map is indexed by the bare target/alias text")
+	n := 0
+	for _, rel := range []string{pkgWasm, pkgQBE} {
+		fn := c.LookupFn(rel, "(*Generator).resolveCallTarget")
+		if !r.Anchor(rule, fn != nil, rel+".(*Generator).resolveCallTarget") {
+			continue
+		}
+		n++
+		info := fn.Info()
+		recv := fn.Obj.Type().(*types.Signature).Recv()
+		usesAliasMap := false
+		var bad []string
+		where := c.pos(fn.Decl.Pos())
+		defs := localDefs(fn)
+		// "module-dependent" expressions: mention the receiver's mod field / a *Module parameter, or a local defined from one
+		var modDep func(e ast.Expr, depth int) bool
+		modDep = func(e ast.Expr, depth int) bool {
+			dep := false
+			ast.Inspect(e, func(x ast.Node) bool {
+				switch y := x.(type) {
+				case *ast.SelectorExpr:
+					if y.Sel.Name == "ImportAliasMap" || y.Sel.Name == "ImportPath" || y.Sel.Name == "mod" {
+						dep = true
+					}
+				case *ast.Ident:
+					if v, ok := info.Uses[y].(*types.Var); ok {
+						if nt := namedOf(v.Type()); nt != nil && nt.Obj().Name() == "Module" {
+							dep = true
+						}
+						if depth < 3 {
+							for _, d := range defs[v] {
+								if modDep(d, depth+1) {
+									dep = true
+								}
+							}
+						}
+					}
+				}
+				return !dep
+			})
+			return dep
+		}
+		ast.Inspect(fn.Decl.Body, func(x ast.Node) bool {
+			ix, ok := x.(*ast.IndexExpr)
+			if !ok {
+				return true
+			}
+			if _, isMap := info.TypeOf(ix.X).Underlying().(*types.Map); !isMap {
+				return true
+			}
+			if sel, ok := ix.X.(*ast.SelectorExpr); ok {
+				if sel.Sel.Name == "ImportAliasMap" {
+					usesAliasMap = true
+					return true
+				}
+				if objOf(info, sel.X) == recv {
+					// generator-level table
+					if !modDep(ix.Index, 0) {
+						bad = append(bad, exprStr(ix))
+						where = c.pos(ix.Pos())
+					}
+				}
+			}
+			return true
+		})
+		r.Check(usesAliasMap, rule, fn.Name(), "alias resolved through the importing module's ImportAliasMap", c.pos(fn.Decl.Pos()), "qualified call targets are no longer resolved with the alias table of the module that contains the call")
+		r.Check(len(bad) == 0, rule, fn.Name(), "no program-wide table keyed by alias text", where,
+			fmt.Sprintf("%v is shared by all modules but keyed without the importing module: two importers that bind the same alias to different modules get each other's function", bad))
+	}
+	r.Floor(rule, n, 2, "resolveCallTarget implementations")
+}
